@@ -24,6 +24,8 @@ type SeqSpec struct {
 	// arguments are known constants on the path.
 	PureCalls map[*ssa.Function]bool
 	NoMerge   bool
+	// InlinedCalls: Event is also asked about calls to new helpers the walker steps into.
+	InlinedCalls bool
 }
 
 type SeqEvent struct {
@@ -144,6 +146,15 @@ func CollectPaths(c *Ctx, spec SeqSpec) (paths []SeqPath, overflow bool) {
 			}
 		}
 		return true
+	}
+	w.EnterCall = func(p *PState, call *ssa.Call) {
+		// a call the walker steps into is still an event if the rule names it
+		if spec.Event != nil && spec.InlinedCalls {
+			if l := spec.Event(w, p, call); l != "" {
+				s := p.U.(*seqState)
+				s.evs = append(s.evs, SeqEvent{l, call})
+			}
+		}
 	}
 	w.Branch = func(p *PState, x *ssa.If, taken bool) {
 		s := p.U.(*seqState)
